@@ -26,8 +26,9 @@
    about it covers all of them.
 
    Not modelled: derived statistics written by Flush (per-second rates, percentiles, the
-   in-place sort of timer values: values are a multiset here), histogram timers (tag
-   gsd_histogram), int64 wrap-around of counter sums (Z here), shutdown. *)
+   Histogram bucket counts of gsd_histogram timers, the in-place sort of timer values: values
+   are a multiset here), int64 wrap-around of counter sums (Z here), shutdown.  Which branch
+   Flush / Reset take for a histogram-tagged timer IS modelled (flush_timer, agg_reset). *)
 From stdpp Require Import gmap gmultiset.
 From Coq Require Import QArith Qcanon.
 From GS Require Import Base.Bytes Base.LTS Model.Lexer Model.Series Model.MetricMap Model.Content.
@@ -84,20 +85,34 @@ Record config := MkCfg {
 Definition is_expired (interval now ts : Z) : bool :=
   negb (interval =? 0)%Z && (interval <? now - ts)%Z.
 
-(* Flush, as far as the reported content goes: a timer without values is reported with
-   Count = 0, SampledCount = 0 *)
-Definition flush_timer (t : timer) : timer :=
-  match t_vals t with
-  | [] => MkTimer [] 0%Qc (t_ts t) (t_src t) (t_tags t)
-  | _ => t
+(* latency_histogram.go hasHistogramTag: some stored tag starts with "gsd_histogram:" *)
+Fixpoint str_has_prefix (p s : str) : bool :=
+  match p, s with
+  | [], _ => true
+  | x :: p', y :: s' => N.eqb x y && str_has_prefix p' s'
+  | _ :: _, [] => false
   end.
+Definition histogram_prefix : str := [103; 115; 100; 95; 104; 105; 115; 116; 111; 103; 114; 97; 109; 58]%N.
+Definition has_histogram_tag (tags : list str) : bool := existsb (str_has_prefix histogram_prefix) tags.
+
+(* Flush, as far as the reported content goes.  A histogram timer (hasHistogramTag) only gets
+   its Histogram field filled: Values and SampledCount are reported as they are.  Any other
+   timer without values is reported with Count = 0, SampledCount = 0. *)
+Definition flush_timer (t : timer) : timer :=
+  if has_histogram_tag (t_tags t) then t
+  else match t_vals t with
+       | [] => MkTimer [] 0%Qc (t_ts t) (t_src t) (t_tags t)
+       | _ => t
+       end.
 Definition agg_flush (m : mmap) : mmap :=
   MkMap (counters m) (flush_timer <$> timers m) (gauges m) (sets m).
 
 Definition live {V} (ts : V → Z) (interval now : Z) (x : gmap skey V) : gmap skey V :=
   base.filter (λ kv, is_expired interval now (ts kv.2) = false) x.
 
-(* Reset at clock [now] *)
+(* Reset at clock [now].  Both timer branches of the Go code (histogram tag or not) put back a
+   timer with Values[:0] and SampledCount 0; they differ only in the Histogram field (an empty
+   histogram vs none), which the model does not carry. *)
 Definition agg_reset (c : config) (now : Z) (m : mmap) : mmap :=
   MkMap ((λ x, MkCounter 0 (c_ts x) (c_src x) (c_tags x)) <$> live c_ts (cfg_exp_counter c) now (counters m))
         ((λ x, MkTimer [] 0%Qc (t_ts x) (t_src x) (t_tags x)) <$> live t_ts (cfg_exp_timer c) now (timers m))
